@@ -739,8 +739,8 @@ def run(tier, replay):
         chk.cov["oracle_messages"] = {k: v[:4] for k, v in msgs.items()}
         chk.cov["layout_classes_enabled"] = layout
         chk.assumptions = ["/usr/bin/ninja is 1.11.1 and /bin/sh is dash", "ext4 scratch directory accepts arbitrary byte file names",
-                           "manifests stay inside the property's premises (see checks/ninja_gen.py); comment/blank lines whose "
-                           "indentation differs from their context are generated only with VERIF_C17_LAYOUT=1"]
+                           "manifests stay inside the property's premises (see checks/ninja_gen.py); lines of blanks and indented comment lines outside a block "
+                           "are generated only with VERIF_C17_LAYOUT=1 (unindented comment lines inside a block are always generated)"]
         edges = tot["edges_total"]
         discarded = (tot["edges_inconclusive_paths_ninja_vs_reference"] + tot["edges_inconclusive_command_ninja_vs_reference"] +
                      tot["edges_inconclusive_description_ninja_vs_reference"] + tot["edges_inconclusive_depfile_ninja_vs_reference"] +
